@@ -49,6 +49,8 @@ func c05Sources(env *core.Env) []string {
 	src := []string{
 		"0", "1", "2", "-1", "2147483647", "(-2147483647 - 1)", "10",
 		"0.0", "1.0", "1.00", "0.5", "1.5", "-1.0", "2147483647.0", "10.0", "1.000000000000000000001", "0.999999999999999999999",
+		// scales far apart (a comparison that avoids aligning exponents must still order negatives correctly)
+		"0." + strings.Repeat("0", 69) + "1", "(-0." + strings.Repeat("0", 69) + "1)", "(-0." + strings.Repeat("0", 69) + "2)", "(-2)", "(-1.5)", "1" + strings.Repeat("0", 70) + ".0", "(-1" + strings.Repeat("0", 70) + ".0)", "(-1" + strings.Repeat("0", 70) + ".5)",
 		"''", "'a'", "'A'", "'b'", "'ab'", "'é'", "'z'", "'€'", "'😀'", "'1'", "'a '",
 		"true", "false",
 		"@2020", "@2021", "@2020-01", "@2020-02", "@2020-01-01", "@2020-01-31", "@2019-12-31", "@2020-02-29",
